@@ -336,7 +336,9 @@ class error_999_visitor(pyx12.error_visitor.error_visitor):
             if err_cde in valid_IK4_codes:
                 seg_data = pyx12.segment.Segment(seg_str, '~', '*', ':')
                 seg_data.set('IK403', err_cde)
-                if bad_value:
+                if bad_value and not any(term in bad_value for term in
+                                         (self.seg_term, self.ele_term, self.subele_term, self.repetition_term)):
+                    # IK404 is optional; a value holding one of our delimiters cannot be copied
                     seg_data.set('IK404', bad_value)
 # todo: add element context
                 self.wr.Write(seg_data)
